@@ -58,6 +58,9 @@ pub enum EvFault {
     /// two network faults on one message: non-final chunk `lost` never arrives and non-final
     /// chunk `dup` arrives twice - the number of chunks and the highest id still look right
     DupAndDropPadChunk { msg: usize, dup: usize, lost: usize },
+    /// second copy of a pad chunk whose payload DIFFERS from the first but has the same CRC-32C
+    /// (and the same header): a corruption the checksums cannot see - still a duplicated bank
+    DupPadChunkSameCrc { msg: usize, chunk: usize },
     /// a PWB board that is not installed for this run sends pad data
     BoardNotInstalled,
     UnknownBank { name: String },
@@ -101,6 +104,7 @@ impl EvFault {
             EvFault::DupPadChunk { .. } => "dup_pad_chunk",
             EvFault::DropPadChunk { .. } => "drop_pad_chunk",
             EvFault::DupAndDropPadChunk { .. } => "dup_and_drop_pad_chunk",
+            EvFault::DupPadChunkSameCrc { .. } => "dup_pad_chunk_same_crc_other_payload",
             EvFault::BoardNotInstalled => "board_not_installed",
             EvFault::UnknownBank { .. } => "unknown_bank",
             EvFault::MalformedWire { .. } => "malformed_wire",
@@ -407,6 +411,33 @@ pub fn apply_fault(ev: &mut BuiltEvent, f: &EvFault, run: u32) -> bool {
             ev.banks[bi] = BankSpec { name: "TRBA".into(), content: Content::Opaque(vec![]) };
             true
         }
+        EvFault::DupPadChunkSameCrc { msg, chunk } => {
+            if ev.pad_idx.is_empty() {
+                return false;
+            }
+            let m = &ev.pad_idx[msg % ev.pad_idx.len()];
+            let mut c = ev.banks[m[chunk % m.len()]].clone();
+            let Content::Chunk(spec) = &mut c.content else { return false };
+            let len = spec.payload.len();
+            if len < 16 || spec.padding.is_some() || spec.declared_len.is_some() {
+                return false;
+            }
+            // the payload CRC covers the payload and its zero padding
+            let mut buf = spec.payload.clone();
+            buf.resize(len.next_multiple_of(4), 0);
+            let target = daqmodel::crc::crc32c(&buf);
+            buf[len / 3] ^= 0x10;
+            if !daqmodel::crc::forge4(&mut buf, len / 2, target) {
+                return false;
+            }
+            buf.truncate(len);
+            if buf == spec.payload {
+                return false;
+            }
+            spec.payload = buf;
+            ev.banks.push(c);
+            true
+        }
         EvFault::DupAndDropPadChunk { msg, dup, lost } => {
             // first message (from `msg` on) with at least two non-final chunks
             let n = ev.pad_idx.len();
@@ -644,6 +675,7 @@ pub fn all_faults(r: &mut Rng) -> Vec<EvFault> {
         EvFault::PadPayloadIdentity { msg: j, other: j, board: true, chip: false, short: i % 2 == 0 },
         EvFault::DupAndDropPadChunk { msg: i, dup: j, lost: j + 1 },
         EvFault::DupAndDropPadChunk { msg: j, dup: i + 1, lost: i },
+        EvFault::DupPadChunkSameCrc { msg: i, chunk: j },
     ]
 }
 
@@ -757,12 +789,12 @@ impl Check for C10Check {
     }
     fn count(&self, tier: Tier) -> u64 {
         match tier {
-            Tier::Quick => 46 * 35 + 172 + N_HISTORY_QUICK,
-            Tier::Thorough => 2000 * 35 + 6000 + N_HISTORY_THOROUGH,
+            Tier::Quick => 46 * 36 + 172 + N_HISTORY_QUICK,
+            Tier::Thorough => 2000 * 36 + 6000 + N_HISTORY_THOROUGH,
         }
     }
     fn generate(&self, seed: u64, index: u64, tier: Tier) -> Value {
-        let n_faulted = if tier == Tier::Quick { 46 * 35 } else { 2000 * 35 };
+        let n_faulted = if tier == Tier::Quick { 46 * 36 } else { 2000 * 36 };
         let n_consistent = if tier == Tier::Quick { 172 } else { 6000 };
         if index >= n_faulted + n_consistent {
             // history scenarios: 1-3 other events (mostly faulted, i.e. rejected somewhere inside
@@ -823,9 +855,9 @@ impl Check for C10Check {
             let scn = Scn { base, fault: None, order_seeds: vec![0, r.next_u64() | 2], hash_keys: vec![r.next_u64()], pred: vec![] };
             return serde_json::to_value(scn).unwrap();
         }
-        // base event k = index / 35, fault slot = index % 35 (0 = none)
-        let k = index / 35;
-        let slot = (index % 35) as usize;
+        // base event k = index / 36, fault slot = index % 36 (0 = none)
+        let k = index / 36;
+        let slot = (index % 36) as usize;
         let base_seed = simcore::run_seed(simcore::driver::verif_seed(), "C10-base", k);
         let mut rb = Rng::new(base_seed);
         let run = RUNS[(k % RUNS.len() as u64) as usize];
